@@ -62,6 +62,12 @@ func scratchBase() string {
 // buildAll instruments repo into a scratch directory and builds the harness twice.
 func buildAll(repo string, wantRace bool) (*Build, error) {
 	b, err := buildWith(repo, wantRace, true)
+	if err == nil && b.Desc.GoStmts > 0 && (b.Desc.LockRewrites > 0 || b.Desc.OnceWraps > 0) {
+		// the tree starts goroutines of its own: they would reach the rewritten Lock loops, which only the
+		// simulated tasks may execute.  Use real locks and operation-granular scheduling instead.
+		b.Cleanup()
+		return buildWith(repo, wantRace, false)
+	}
 	if err != nil && b != nil && b.Desc != nil && (b.Desc.LockRewrites > 0 || b.Desc.OnceWraps > 0) {
 		// the Lock/Do rewrite did not compile (not a sync mutex): fall back to operation-granular scheduling
 		fmt.Fprintf(os.Stderr, "[simctl] lock rewrite does not compile (%v); falling back to operation-granular scheduling\n", firstLine(err.Error()))
